@@ -176,6 +176,22 @@ func genCase(t *rapid.T) ax.Case {
 		c.Mat = ax.MatSpec{Diag: []int{rapid.IntRange(2, 5).Draw(t, "match")}, Off: []int{rapid.IntRange(-6, -4).Draw(t, "mismatch")},
 			GapRow: []int{rapid.IntRange(-1, 0).Draw(t, "gr")}, GapCol: []int{rapid.IntRange(-1, 0).Draw(t, "gc")}}
 	}
+	switch rapid.IntRange(0, 79).Draw(t, "size-class") {
+	case 41:
+		// a DP table of more than 65536 cells
+		c.R = genSeq(t, "r-large", pool, 257, 420, "")
+		c.Q = genSeq(t, "q-large", pool, 257, 420, c.R)
+	case 17, 53:
+		// one long gap: the reference (or the query) carries an insert of 200..520 letters the other
+		// sequence lacks; gaps are cheap and mismatches dear, so the alignment bridges it with one gap
+		left, right := genSeq(t, "gap-left", pool, 6, 20, ""), genSeq(t, "gap-right", pool, 6, 20, "")
+		ins := genSeq(t, "gap-insert", pool, 200, 520, "")
+		c.R, c.Q = left+ins+right, left+right
+		if rapid.Bool().Draw(t, "gap-in-reference") {
+			c.R, c.Q = c.Q, c.R
+		}
+		c.Mat = ax.MatSpec{Diag: []int{rapid.IntRange(3, 6).Draw(t, "lg-match")}, Off: []int{-6}, GapRow: []int{rapid.IntRange(-1, 0).Draw(t, "lg-gr")}, GapCol: []int{rapid.IntRange(-1, 0).Draw(t, "lg-gc")}}
+	}
 	if c.Affine() {
 		c.GapOpen = rapid.IntRange(-6, 0).Draw(t, "open")
 	}
@@ -185,6 +201,12 @@ func genCase(t *rapid.T) ax.Case {
 
 func descClasses(c ax.Case) []string {
 	l := append([]string{c.Aligner}, c.UsageClasses()...)
+	if (len(c.R)+1)*(len(c.Q)+1) >= 65536 {
+		l = append(l, "table>=65536-cells")
+	}
+	if d := len(c.R) - len(c.Q); d >= 200 || d <= -200 {
+		l = append(l, "gap-of-200-or-more")
+	}
 	ps, _, err := c.Run()
 	if err == nil {
 		kinds := map[string]bool{}
@@ -307,11 +329,21 @@ func checkBad(b badCase) *vlib.Failure {
 		}
 		r, q = mkSeq("r", rStr, alpha, c.QLetters), mkSeq("q", qStr, alpha, c.QLetters)
 	case "different-alphabets":
-		other := alphabet.RNAgapped
-		if c.Alpha == "RNAgapped" {
-			other = alphabet.DNAgapped
+		// any two distinct alphabets, on either side, also when one is a subset of the other; the
+		// matrix fits the larger one, so that nothing but the alphabet mismatch is wrong
+		others := []alphabet.Alphabet{alphabet.DNAgapped, alphabet.RNAgapped, alphabet.DNAredundant, alphabet.RNAredundant, alphabet.Protein}
+		other := others[b.Bad%len(others)]
+		if other == alpha {
+			other = others[(b.Bad+1)%len(others)]
 		}
-		q = mkSeq("q", qStr, other, c.QLetters)
+		if other.Len() > alpha.Len() {
+			m = c.Mat.Build(other.Len())
+		}
+		if b.Pos%2 == 0 {
+			q = mkSeq("q", qStr, other, c.QLetters)
+		} else {
+			r = mkSeq("r", rStr, other, c.QLetters)
+		}
 	case "nil-alphabet":
 		r, q = mkSeq("r", rStr, nil, c.QLetters), mkSeq("q", qStr, nil, c.QLetters)
 	case "ungapped-alphabet":
